@@ -305,7 +305,7 @@ PROPS = {
     "C18": {
         "pf": True,
         "n": {"quick": 250, "thorough": 6000},
-        "cone": ["Bytes", "Regex", "Generated", "Channel", "ChanTrace", "ChanTraceLemmas", "Replay"],
+        "cone": ["Bytes", "Regex", "Generated", "Channel", "ChanTrace", "ChanTraceLemmas", "Replay", "DecideLang", "GeneratedSkel", "Decide"],
         "rx": True,
         "rule": "generic.Driver.SendWithCallbacks over the simulated transport and a scripted dialogue device: callback lists (contains / not-contains / "
                 "regex / case sensitivity / once / complete / next-timeout / answers written by the callback), dialogues whose texts make several triggers "
@@ -315,7 +315,7 @@ PROPS = {
                       "runs had its trigger true on exactly the output it received and is the first such in list order; no callback runs "
                       "otherwise; once-callbacks run at most once; success = a complete-callback ran and the whole dialogue is returned; otherwise "
                       "timeout. Tied to the code by replaying real runs (sequence of (index, argument), result, error class).",
-        "level_note": "The recursion of handleCallbacks is bounded by fuel 64 in the model. Trusted: kernel, generated regex ASTs + RX, extraction, harness.",
+        "level_note": "C18_check_is_source: Callback.check is translated statement by statement from the Go AST on every run and its interpretation, given the outcomes of its tests, is proved equal to the model's cb_check for every callback and buffer. The recursion of handleCallbacks is bounded by fuel 64 in the model. Trusted: kernel, generated regex ASTs + RX, extraction, harness.",
     },
     "C10": {
         "pf": True,
